@@ -103,7 +103,7 @@ SPEC int wd_inv2(int maxlen, int small) {
   int n;
   if (!list_links_ok(A_SENT) || !list_links_ok(F_SENT)) return 0;
   n = list_len(A_SENT);
-  if (n > maxlen || list_len(F_SENT) > 2) return 0;
+  if (n > maxlen || list_len(F_SENT) > WD_N + 1) return 0;   /* every element of the harness may end up on the free list */
   if (!active_sorted(small)) return 0;
   if ((S_running != 0) != (n > 0)) return 0;
   if (n > 0) {
